@@ -136,15 +136,20 @@ def _iter_modified(for_node, it):
     return None
 
 
-def _explicit_raises(sm):
-    """(path, raise event) for every explicit raise statement of the function itself"""
+def _explicit_raises(eng, sm, anchor):
+    """paths ending in an explicit raise statement of the function itself or of one of its
+    private helpers / nested functions (analysed as one unit with it)"""
+    from . import own_site
+
     for p in sm.paths:
-        if p.kind != "raise" or p.value.origin != "explicit" or len(p.value.chain) != 1:
+        if p.kind != "raise" or p.value.origin != "explicit" or not all(own_site(eng, s_, anchor) for s_ in p.value.chain):
             continue
         yield p
 
 
 def _named_rejections(ctx):
+    from . import own_site
+
     eng, prog = ctx.eng, ctx.prog
     # (a) threshold not met -> SignatureError : explicit raises of verify_signable after the per-entry loop
     from .vs import VSModel
@@ -152,10 +157,10 @@ def _named_rejections(ctx):
     vm = VSModel(eng)
     n = 0
     for p in vm.post_raises:
-        if p.value.origin != "explicit" or len(p.value.chain) != 1:
+        if p.value.origin != "explicit" or not all(own_site(eng, s_, "authentication.verify_signable") for s_ in p.value.chain):
             continue
         n += 1
-        s = p.value.chain[0]
+        s = p.value.chain[-1]
         ctx.ob("R2", "threshold-class|%s" % s.key(), s.loc(), "insufficient signatures are reported as %s (expected SignatureError)" % p.value.exc, prog.exc_is_sub(p.value.exc, "SignatureError"))
     ctx.count("R2.threshold_raise", n)
     # (b) undelegated role -> UnknownRoleError ; type-for-role mismatch -> MetadataVerificationError
@@ -163,8 +168,8 @@ def _named_rejections(ctx):
     name, untrusted, trusted = (P(x) for x in sm.params[:3])
     dl = SubC(trusted, "signed", "delegations")
     role_seen = type_seen = 0
-    for p in _explicit_raises(sm):
-        s = p.value.chain[0]
+    for p in _explicit_raises(eng, sm, "authentication.verify_delegation"):
+        s = p.value.chain[-1]
         if ("nothas", dl, name) in p.facts:
             role_seen += 1
             ctx.ob("R2", "unknown-role-class|%s" % s.key(), s.loc(), "an undelegated role is reported as %s (expected UnknownRoleError)" % p.value.exc, prog.exc_is_sub(p.value.exc, "UnknownRoleError"))
@@ -179,8 +184,8 @@ def _named_rejections(ctx):
     tv = SubC(P(sm.params[0]), "signed", "version")
     uv = SubC(P(sm.params[1]), "signed", "version")
     ver_seen = 0
-    for p in _explicit_raises(sm):
-        s = p.value.chain[0]
+    for p in _explicit_raises(eng, sm, "authentication.verify_root"):
+        s = p.value.chain[-1]
         dec = [f for f in p.facts if f[0] in ("ne", "eq", "cmp") and _mentions(f, tv) and _mentions(f, uv)]
         if dec:
             ver_seen += 1
